@@ -63,7 +63,7 @@ def main(tier):
     mc = 3 if q else 4
     metas = ['none', 'en', 'empty'] if q else ['none', 'en', 'empty', 'nocontent', 'other']
     ips = [0] + list(range(2, mc + 1))
-    base = {'MaxChain': mc, 'Modes': tla_set(['html', 'mixed', 'xml', 'xhtml']), 'Metas': tla_set(metas),
+    base = {'MaxChain': mc, 'Modes': tla_set(['html', 'mixed', 'xml', 'xhtml', 'xmlmix']), 'Metas': tla_set(metas),
             'IframeAts': tla_set(ips), 'Inners': tla_set(['none']), 'XhtmlMeta': 'FALSE'}
     inv = ('Emit', 'Laws')
     # HTML, html5lib-style, XML with every pragma state; XHTML without a pragma
